@@ -66,6 +66,26 @@ def mc_mini(rep, freebits, liveness=True, workers=8, heap="2g"):
     return res
 
 
+PAIR_CFG = """SPECIFICATION Spec
+CONSTANTS FreeBits = %d
+ Kind = "%s"
+INVARIANT PrefixMonotone
+INVARIANT CutRule
+INVARIANT TailIndependent
+CHECK_DEADLOCK FALSE
+"""
+
+
+def mc_pair(rep, kind, freebits, workers=8):
+    """Two-run lemmas of the interpreter (DecodePair.tla): PrefixMonotone / CutRule (kind cut), TailIndependent (kind tail)."""
+    tp = decode_rec.write_tables(mini_bundle(False), "mini-pair.json")
+    res = tlc.run("DecodePair", PAIR_CFG % (freebits, kind), env={"VERIF_TABLES": tp}, workers=workers, heap="3g", timeout=3000)
+    tlc.must_ok(res, f"DecodePair {kind} FreeBits={freebits}")
+    rep.add_tlc(res)
+    rep.notes.setdefault("mc_pair", []).append({"kind": kind, "freebits": freebits, "states": res.distinct})
+    return res
+
+
 def mini_records(freebits, stride=1):
     """Decode every mini payload with the real interpreter (in a subprocess)."""
     out = os.path.join(common.scratch(), f"mini-recs-{freebits}-{stride}.json")
@@ -108,8 +128,13 @@ class Corpus:
 
     def add(self, payload, labelmsm=1, keep_msg=False, lbl=True, via="ctor", frame=None, validate=1, **meta):
         rid = len(self.recs) + 1
-        r, msg = decode_rec.record_decode(rid, payload, labelmsm, via=via, frame=frame, validate=validate)
-        if rid % 2 == 0:
+        try:
+            with common.watchdog(30):
+                r, msg = decode_rec.record_decode(rid, payload, labelmsm, via=via, frame=frame, validate=validate)
+        except common.Watchdog:
+            r, msg = decode_rec.record_decode(rid, b"", labelmsm)      # placeholder record
+            r.update(p=list(payload or b""), out="raise", cls="Watchdog(no termination)", lib=False)
+        if rid % 2 == 0 and r["cls"] != "Watchdog(no termination)":
             # history dimension: every other record is the SECOND decode of the same bytes in this
             # process (caches keyed by payload, state surviving a parse, ...)
             r, msg = decode_rec.record_decode(rid, payload, labelmsm, via=via, frame=frame, validate=validate)
